@@ -1136,6 +1136,13 @@ class Engine:
                 if k_ not in lv.fields: lv.fields[k_] = self.ex.fresh(lv.fields.get('__elemty', mm.group(1)), f'{lv.name}[{k_}]')
                 d_ = z3.simplify(z3.If(lv.fields['__len'].e > k_, 1, 0))
                 return EnumV('Option', d_.as_long() if z3.is_int_value(d_) else d_, {1: {0: RefV(lst.cell, lst.path + (('i', k_),))}})
+        if re.match(r"^<.* as anchor_lang::ToAccountInfo<'_>>::to_account_info$", c) and not getattr(self, 'opaque_to_account_info', False):
+            o = self.deref_val(args[0])
+            if isinstance(o, StructV):
+                if re.match(r"^anchor_lang::prelude::AccountInfo<", o.ty.strip()): return o
+                if '__info' not in o.fields:
+                    o.fields['__info'] = Cell(self.ex.fresh("anchor_lang::prelude::AccountInfo<'_>", o.name + '.info'), name=o.name + '.info')
+                return o.fields['__info'].val
         # ---- Anchor / Pubkey / PDA models (keys are uninterpreted scalars; sha256 derivation is an uninterpreted function)
         if re.match(r'^<anchor_lang::prelude::(AccountLoader|Account|InterfaceAccount|Signer|Program|Interface|SystemAccount|UncheckedAccount|Sysvar)<.*> as AsRef<anchor_lang::prelude::AccountInfo<.*>>>::as_ref$', c):
             o = self.deref_val(args[0])
